@@ -195,6 +195,11 @@ func (k Keeper) AddDeposit(ctx sdk.Context, receiverAddr, senderAddr sdk.AccAddr
 		return false, err
 	}
 
+	// a longer extension does not fit time.Duration: the deposit zero time computed above would have wrapped
+	if durationExtension > types.MaxDurationSeconds {
+		return false, sdkerrors.Wrapf(types.ErrInvalidData, "deposit duration too long. max %d seconds", types.MaxDurationSeconds)
+	}
+
 	// set and save new stream data
 	// add topUpDeposit to current stream deposit
 	newDeposit := stream.Deposit.Add(topUpDeposit) // may have been refreshed above for expired streams
@@ -255,6 +260,9 @@ func (k Keeper) SetNewFlowRate(ctx sdk.Context, receiverAddr, senderAddr sdk.Acc
 		// above. We're effectively creating a "new" stream, based on existing deposit value
 		// and the new flow rate
 		duration = types.CalculateDuration(stream.Deposit, newFlowRate)
+		if duration > types.MaxDurationSeconds {
+			return sdkerrors.Wrapf(types.ErrInvalidData, "deposit duration too long. max %d seconds", types.MaxDurationSeconds)
+		}
 		depositZeroTime = nowTime.Add(time.Second * time.Duration(duration))
 	}
 
